@@ -1008,6 +1008,14 @@ def _dict(ex, args, kwargs, fr):
     return ex.st.alloc(HDict(items))
 
 
+@libfn("object.__new__")
+def _object_new(ex, owner, args, kwargs, fr):
+    c = args[0] if args else owner
+    if not isinstance(c, VClass):
+        raise Unsupported("__new__ of a non-repository class")
+    return ex.st.alloc(HObj(c.ci, {}))
+
+
 @libfn("builtins.id")
 def _id(ex, args, kwargs, fr):
     v = args[0]
